@@ -129,6 +129,25 @@ var registry = []Harness{
 		Quick:    [][]int{{0, 1}, {1, 7}, {2, 7}, {3, 1}, {4, 1}, {5, 1}, {6, 7}, {7, 7}, {8, 1}, {9, 7}, {10, 1}},
 		Thorough: [][]int{{0, 1}, {1, 1}, {2, 1}, {3, 1}, {4, 1}, {5, 1}, {6, 1}, {7, 1}, {8, 1}, {9, 1}, {10, 1}, {0, 4}, {1, 4}, {2, 4}, {3, 4}, {5, 4}, {6, 4}, {7, 4}, {9, 4}, {10, 4}, {2, 7}, {6, 7}, {7, 7}},
 		Bound:    "contract #param0 of the 11 freshly deployed (post-deploy storage) as a release reporting a SYMBOLIC version v in Z, committee size param1, update with symbolic presence of the committee-majority, Alphabet and Inner-Ring-majority accounts; the replay builds the old release from a scratch copy of the tree with the version constant set to v"},
+	{Prop: "C05", Pkg: "container", Func: "VerifC05Fee", Link: []string{"nns", "netmap", "balance", "neofsid", "container"},
+		Quick:    [][]int{{1, 0, 0}, {4, 4, 0}, {7, 7, 0}, {1, 4, 1}, {4, 0, 1}},
+		Thorough: [][]int{{1, 0, 0}, {1, 4, 0}, {1, 7, 0}, {4, 0, 0}, {4, 4, 0}, {4, 7, 0}, {7, 0, 0}, {7, 4, 0}, {7, 7, 0}, {1, 0, 1}, {1, 4, 1}, {4, 0, 1}, {4, 7, 1}, {7, 4, 1}},
+		Bound:    "five linked contracts; committee size param0 in {1,4,7}; V2 blob with version-field length param1 in {0,4,7} and every other byte symbolic; fees (0 included), owner balance symbolic; symbolic Alphabet signature; param2: named container (alias fee, NNS registration); then the fee is changed and a second container is put"},
+	{Prop: "C04", Pkg: "container", Func: "VerifC04Registry", Link: []string{"nns", "netmap", "balance", "neofsid", "container"},
+		Quick:    [][]int{{2, 0, 0, 3}, {2, 4, 2, 3}, {2, 0, 0, 4}, {2, 7, 3, 0}, {2, 0, 2, 2}, {2, 4, 1, 3}, {2, 0, 4, 3}, {2, 0, 0, 0}, {2, 4, 0, 2}, {2, 0, 2, 0}, {2, 0, 3, 3}, {2, 0, 2, 4}, {3, 0, 0, 4, 3}, {3, 4, 0, 3, 0}, {3, 0, 1, 3, 1}},
+		Thorough: c04Thorough(),
+		Bound: "param0 consecutive symbolic operations (put, put with meta flag, putNamed with one shared name, delete, setEACL; symbolic target among two pool containers and a foreign id; symbolic Alphabet signature); blobs with version-field length param1 and all other bytes symbolic, second owner symbolic (same or other); after each operation get/owner/eACL/alias/count/list/containersOf and the NNS alias record are compared with a reference model; fees are zero (C05 covers them)"},
+}
+
+func c04Thorough() [][]int {
+	var out [][]int
+	for a := 0; a < 5; a++ {
+		for b := 0; b < 5; b++ {
+			out = append(out, []int{2, (a + b) % 3 * 4 % 9, a, b}) // version-field lengths 0, 4, 8
+		}
+	}
+	// put-delete-put (replay of a deleted id), named-delete-named (name reuse), put-eACL-delete, named-put-delete
+	return append(out, []int{3, 0, 0, 3, 0}, []int{3, 4, 2, 3, 2}, []int{3, 0, 0, 4, 3}, []int{3, 7, 2, 0, 3}, []int{3, 0, 1, 3, 1}, []int{3, 4, 0, 2, 3}, []int{3, 0, 2, 3, 0})
 }
 
 func ipv4Shapes() [][]int {
@@ -156,6 +175,8 @@ func allTriples(n int) [][]int {
 	}
 	return out
 }
+
+
 
 
 
